@@ -28,13 +28,34 @@ Definition VO {A} (f : A -> val) (o : option A) : val :=
   match o with Some a => VL [f a] | None => VL [] end.
 Definition VLs {A} (f : A -> val) (l : list A) : val := VL (map f l).
 
-(* indices (and the model's answer) of the cases where model and implementation differ *)
+(* first point where two values differ: the path to it, then what the model has and what the
+   implementation showed there (for lists of different length: the two lengths) *)
+Fixpoint vdiff (a b : val) {struct a} : option val :=
+  match a, b with
+  | VL x, VL y =>
+      if Nat.eqb (length x) (length y) then
+        (fix go (n : Z) (x y : list val) {struct x} : option val :=
+           match x, y with
+           | a :: x', b :: y' =>
+               match vdiff a b with
+               | Some (VL (VL p :: r)) => Some (VL (VL (VZ n :: p) :: r))
+               | Some d => Some d
+               | None => go (n + 1)%Z x' y'
+               end
+           | _, _ => None
+           end) 0%Z x y
+      else Some (VL [VL []; VS "length"; VN (length x); VN (length y)])
+  | _, _ => if val_eqb a b then None else Some (VL [VL []; a; b])
+  end.
+
+(* indices of the cases where model and implementation differ, each with the first difference:
+   [path; model; implementation] *)
 Fixpoint mismatches_from {I} (run : I -> val) (n : nat) (cases : list (I * val)) : list (nat * val) :=
   match cases with
   | [] => []
   | (i, expected) :: r =>
       let got := run i in
       if val_eqb got expected then mismatches_from run (S n) r
-      else (n, got) :: mismatches_from run (S n) r
+      else (n, match vdiff got expected with Some d => d | None => VS "?" end) :: mismatches_from run (S n) r
   end.
 Definition mismatches {I} (run : I -> val) (cases : list (I * val)) := mismatches_from run 0 cases.
